@@ -27,7 +27,13 @@ static CH *exact(const CH *src, long n, const char *name){ CH *p = uk_buf((size_
 int main(void){
   CH tb[CAP], tr[CAP], exp[2 * CAP], tmp[2 * CAP], tmp2[2 * CAP]; CH *bt, *rt; long bn, rn, en, i; URI B, R, T; const CH *ep = 0; int rc, compat, len = 0; CH *got;
   os_split_t bs, rs;
+#ifdef BASE_FIXED
+  /* constant base text (e.g. a deep one); KB only sizes the buffers */
+  { static const char fixed[] = BASE_FIXED; for (bn = 0; fixed[bn]; bn++) tb[bn] = (CH)fixed[bn]; }
+  bt = exact(tb, bn, "base");
+#else
   bn = gen_uri(tb, BFLAGS, KB, SEGL, "b"); bt = exact(tb, bn, "base");
+#endif
   rn = gen_uri(tr, RFLAGS, KR, SEGL, "r"); rt = exact(tr, rn, "ref");
   if (U(uriParseSingleUriExMm)(&B, bt, bt + bn, &ep, &mm) != URI_SUCCESS) { uk_assume(0); return 0; }
   if (U(uriParseSingleUriExMm)(&R, rt, rt + rn, &ep, &mm) != URI_SUCCESS) { U(uriFreeUriMembersMm)(&B, &mm); uk_assume(0); return 0; }
